@@ -6,7 +6,8 @@
 (*  - replay: the real loaded object = the reader model's object, then save/load generations *)
 (*    from it (content preserved, generation 2 bytes = generation 3 bytes).                  *)
 EXTENDS EzApi, Json
-CONSTANTS Variant          \* "layout" | "patterns" : which family of files this run generates
+CONSTANTS Variant,         \* "layout" | "patterns" : which family of files this run generates
+          Full             \* layout family: TRUE = every content x every layout; FALSE = all layouts for three contents, three layouts for the others
 
 p1 == <<112,49>>  p2 == <<80,50>>  a1 == <<97,49>>  a2 == <<65,50>>
 (* ---- contents: objects as a foreign writer might hold them ---- *)
@@ -43,8 +44,19 @@ Relabel(o, k) ==
       names == [i \in 1..Len(lab.v) |-> IF i <= Len(nl) THEN nl[i] ELSE UnlabeledP(i - 1)]
       o1 == SetP(o, sPOINT, sLABELS, SetStrs(lab, nl))
   IN [o1 EXCEPT !.frm = [f \in 1..Len(o.frm) |-> [o.frm[f] EXCEPT !.p = [i \in 1..Len(@) |-> [@[i] EXCEPT !.n = names[i]]]]]]
+\* the same for channels: fewer / more ANALOG:LABELS than channels in use (unlabeled_analog_<i>)
+RelabelA(o, k) ==
+  LET lab == GetParam(o.grp, sANALOG, sLABELS)
+      nl == IF k < 0 THEN SubSeq(lab.v, 1, Len(lab.v) - 1) ELSE Append(lab.v, <<121, 121>>)
+      names == [i \in 1..Len(lab.v) |-> IF i <= Len(nl) THEN nl[i] ELSE UnlabeledA(i - 1)]
+      o1 == SetP(o, sANALOG, sLABELS, SetStrs(lab, nl))
+  IN [o1 EXCEPT !.frm = [f \in 1..Len(o.frm) |-> [o.frm[f] EXCEPT !.a = [s \in 1..Len(@) |-> [i \in 1..Len(@[s]) |-> [@[s][i] EXCEPT !.n = names[i]]]]]]]
 \* "Optotrak": an ANALOG group without any parameter (only meaningful without channels)
 AnalogEmpty(o) == [o EXCEPT !.grp[GroupIdx(o.grp, sANALOG)].p = <<>>]
+\* a parameter record longer than 32767 bytes (the next-offset is an unsigned 16-bit word)
+BigGroup == [n |-> <<67, 65, 76, 73, 66>>, d |-> <<>>, l |-> 0, p |-> <<
+               MkP(<<84, 65, 66, 76, 69>>, <<116>>, 0, TFLOAT, <<128, 65>>, [i \in 1..8320 |-> <<i % 256, (i \div 256) % 256, 128, 63>>]),
+               MkP(<<65, 70, 84, 69, 82>>, <<>>, 0, TINT, <<2>>, <<7, -7>>) >>]
 C_small  == Build(<<p1>>, <<a1>>, 2, 1)
 C_two    == Build(<<p1, p2>>, <<a1, a2>>, 1, 2)
 C_pts    == Build(<<p1, p2>>, <<>>, 0, 2)
@@ -52,7 +64,7 @@ C_ana    == Build(<<>>, <<a1>>, 2, 2)
 C_none   == Build(<<>>, <<>>, 0, 0)
 Contents == <<   \* (small: pre-evaluated once)
   C_small, AddG(C_small, ExtraGroup), WithEvents(C_two), Shifted(C_two), Relabel(C_two, -1), Relabel(C_pts, 1),
-  AnalogEmpty(C_pts), C_ana, C_none, AddG(C_none, ExtraGroup) >>
+  AnalogEmpty(C_pts), C_ana, C_none, AddG(C_none, ExtraGroup), RelabelA(C_ana, -1), RelabelA(C_two, -1), RelabelA(C_small, 1), AddG(C_pts, BigGroup) >>
 (* ---- layouts ---- *)
 L0(n) == DefaultLayout(n)
 Layouts(n) == <<
@@ -66,7 +78,10 @@ Layouts(n) == <<
   [L0(n) EXCEPT !.zeros = 1, !.paddr = 3, !.zeroPrologue = TRUE, !.rev = TRUE] >>
 \* (operators with a parameter are evaluated on demand; TLC pre-evaluates every parameterless constant definition at start-up)
 LayoutFile(k) == LET c == Contents[((k - 1) \div 8) + 1]  lay == Layouts(Len(c.grp))[((k - 1) % 8) + 1] IN [src |-> c, lay |-> lay, bytes |-> EncodeWith(c, lay)]
-NLayoutFiles == Len(Contents) * 8
+NC == Len(Contents)
+NLayoutFiles == IF Full THEN NC * 8 ELSE 24 + (NC - 3) * 3
+\* index of the k-th selected (content, layout) pair in the full enumeration
+LayoutSelIdx(k) == IF Full \/ k <= 24 THEN k ELSE (3 + (k - 25) \div 3) * 8 + <<1, 5, 8>>[((k - 25) % 3) + 1]
 (* ---- C12: bit patterns ---- *)
 IntParam(name, lo) == MkP(name, <<>>, 0, TINT, <<128, 8>>, [i \in 1..1024 |-> lo + i - 1])
 ByteParam(x) == MkP(<<66>>, <<>>, 0, TBYTE, <<128, 2>>, [i \in 1..256 |-> i - 129])
@@ -90,7 +105,7 @@ PatternSrc(k) == IF k <= 16 THEN IntFile(k)
                  ELSE HeaderWordFile(WordValues[k - 21])
 NPatternFiles == 21 + Len(WordValues)
 PatternFile(k) == LET c == PatternSrc(k) IN [src |-> c, lay |-> L0(Len(c.grp)), bytes |-> EncodeWith(c, L0(Len(c.grp)))]
-FileOf(k) == IF Variant = "layout" THEN LayoutFile(k) ELSE PatternFile(k)
+FileOf(k) == IF Variant = "layout" THEN LayoutFile(LayoutSelIdx(k)) ELSE PatternFile(k)
 NFiles == IF Variant = "layout" THEN NLayoutFiles ELSE NPatternFiles
 MC_Files == [k \in 1..NFiles |-> FileOf(k).bytes]
 SameContent(c1, c2) == c1.hdr = c2.hdr /\ c1.frm = c2.frm /\ Len(c1.grp) = Len(c2.grp) /\ SeqToSet(c1.grp) = SeqToSet(c2.grp)
